@@ -218,7 +218,9 @@ CHECKS = {
              "transitions plus sub-second raws; Block cache invalidation and pod literal evaluation are checked per entry. Every quantised vector/quaternion element "
              "gets raws {min, min+1, mid-1, mid, mid+1, max-1, max} (8-bit: all) one component at a time from two bases, both value-first and spliced directly into "
              "the payload bytes. Encode histories: [fail], [fail, fail], [foreign fail], [foreign fail, fail] (failing encodes that raise after writing >= 1 byte) "
-             "followed by serialize / serialize(pod) / Block.serialize_var must give the bytes two clean encodes gave.",
+             "followed by serialize / serialize(pod) / Block.serialize_var must give the bytes two clean encodes gave. For each abstract subfield-serializer base that "
+             "addons subclass (FlagSwitched, EnumSwitched, Simple/TEMPLATE, Adapter, AdapterInstance, the registration helpers) two harness-defined subclasses with "
+             "different templates behind the same selector values and one shipped subclass are used interleaved in all orders against hand-built reference bytes.",
         note="Wire types from message_template.msg through the independent parser; 32/64-bit domains by alphabet; UNSERIALIZABLE means 'no pretty form'; floats NaN-free; "
              "9 registrations naming variables that do not exist in the template are out of scope; value generation uses the library's spec objects and adapter grids; "
              "a round-trip oracle cannot see an encoder that loses information consistently with its decoder (C13 covers the compressed-update template independently)."),
